@@ -370,6 +370,9 @@ func (mr *memRepo) BlobCreate(opts ...BlobOpt) (BlobCreator, string, error) {
 			ok = false
 		}
 		if ok {
+			// the blob is being pushed again, it is as new as one that had to be uploaded: the grace period starts over
+			b.m.mod = time.Now()
+			mr.timeMod = b.m.mod
 			return nil, "", types.ErrBlobExists
 		}
 	}
